@@ -68,13 +68,13 @@ func vEvalUpdate(text string, item, vals map[string]*types.Item) bool {
 	return EvalUpdate(upd, env).Type() != ObjectTypeError
 }
 
-var vCondPositions = []string{"W = :v", ":v = W", "attribute_exists(W)", "W BETWEEN :v AND :v", "W IN (:v)", "begins_with(W, :v)", "size(W) > :n", "NOT W = :v", "a = :v AND W <> :v", "m.W = :v"}
-var vUpdPositions = []string{"SET W = :v", "SET a = W", "REMOVE W", "ADD W :n", "SET a = if_not_exists(W, :v)"}
+var vCondPositions = []string{"W = :v", ":v = W", "attribute_exists(W)", "W BETWEEN :v AND :v", "W IN (:v)", "begins_with(W, :v)", "size(W) > :n", "NOT W = :v", "a = :v AND W <> :v", "W.k = :v", "W[0] = :v", "m.W = :v"}
+var vUpdPositions = []string{"SET W = :v", "SET a = W", "REMOVE W", "ADD W :n", "SET a = if_not_exists(W, :v)", "SET W.k = :v", "REMOVE W[0]"}
 
 func vSubst(template, word string) string {
 	out := ""
 	for i := 0; i < len(template); i++ {
-		if template[i] == 'W' && (i+1 == len(template) || template[i+1] == ' ' || template[i+1] == ')' || template[i+1] == ',') && (i == 0 || template[i-1] == ' ' || template[i-1] == '(' || template[i-1] == '.') {
+		if template[i] == 'W' && (i+1 == len(template) || template[i+1] == ' ' || template[i+1] == ')' || template[i+1] == ',' || template[i+1] == '.' || template[i+1] == '[') && (i == 0 || template[i-1] == ' ' || template[i-1] == '(' || template[i-1] == '.') {
 			out += word
 		} else {
 			out += string(template[i])
